@@ -1,21 +1,170 @@
+mod gens;
 mod model;
+mod mops;
+mod ops;
+mod props;
+mod req;
+mod runner;
 mod selftest;
 mod util;
+
+use props::Tier;
+use serde_json::{json, Value};
+
+fn config_name() -> String {
+    std::env::var("VERIF_CONFIG").unwrap_or_else(|_| "unknown".into())
+}
+
+fn arg_after(args: &[String], flag: &str) -> Option<String> {
+    args.iter().position(|a| a == flag).and_then(|i| args.get(i + 1).cloned())
+}
+
+/// driver run <ID> [--tier quick|thorough] [--seed N] [--out FILE] [--replay-dir DIR]
+fn cmd_run(args: &[String]) -> i32 {
+    let id = args.get(2).cloned().unwrap_or_default();
+    let tier = match arg_after(args, "--tier").as_deref() {
+        Some("thorough") => Tier::Thorough,
+        _ => Tier::Quick,
+    };
+    let seed: u64 = arg_after(args, "--seed").and_then(|s| s.parse().ok()).unwrap_or(0);
+    let out = arg_after(args, "--out");
+    let replay_dir = arg_after(args, "--replay-dir").unwrap_or_else(|| "/verif/replays".into());
+    let only = arg_after(args, "--only");
+    let (shard, nshards) = match arg_after(args, "--shard") {
+        Some(s) => {
+            let mut it = s.split('/');
+            let a: u64 = it.next().and_then(|x| x.parse().ok()).unwrap_or(0);
+            let b: u64 = it.next().and_then(|x| x.parse().ok()).unwrap_or(1);
+            (a, b.max(1))
+        }
+        None => (0, 1),
+    };
+    let cfgname = config_name();
+    let checks = match props::checks(&id, tier) {
+        Some(c) => c,
+        None => {
+            eprintln!("unknown property {}", id);
+            return 2;
+        }
+    };
+    let mut parts = vec![];
+    let mut violations = vec![];
+    let mut aborted = false;
+    for chk in checks {
+        if let Some(o) = &only {
+            if !chk.name.contains(o.as_str()) {
+                continue;
+            }
+        }
+        let mut chk = chk;
+        if nshards > 1 && !chk.exhaustive {
+            chk.cases = ((chk.cases as u64 + nshards - 1) / nshards) as u32;
+        } else if nshards > 1 && shard != 0 {
+            continue; // enumerations run once, in shard 0
+        }
+        // every (configuration, shard) explores its own stream unless VERIF_SAME_STREAM is set
+        let cfg_mix = if std::env::var("VERIF_SAME_STREAM").is_ok() { 0 } else { util::fnv(cfgname.as_bytes()) };
+        let o = runner::run_check(chk, seed.wrapping_mul(0x9e3779b97f4a7c15).wrapping_add(shard) ^ cfg_mix, &cfgname);
+        let mut viol_path = Value::Null;
+        if let Some(v) = &o.violation {
+            if v.get("abort").is_some() {
+                eprintln!("check {} aborted: {}", o.name, v);
+                aborted = true;
+            } else {
+                let mut v = v.clone();
+                v["property"] = json!(id);
+                let h = util::fnv(v.to_string().as_bytes());
+                let _ = std::fs::create_dir_all(&replay_dir);
+                let path = format!("{}/{}-{}-{:016x}.json", replay_dir, id, cfgname, h);
+                std::fs::write(&path, serde_json::to_string_pretty(&v).unwrap()).expect("write replay");
+                println!("VIOLATION property={} replay={}", id, path);
+                eprintln!("violation detail: {}", v);
+                viol_path = json!(path);
+                violations.push(path);
+            }
+        }
+        parts.push(json!({
+            "check": o.name, "config": cfgname, "evaluations": o.stats.evaluations,
+            "distinct_nontrivial": o.stats.nontrivial.len(), "classes": o.stats.classes,
+            "samples": o.stats.samples, "rule": o.rule, "wall_s": o.wall_s, "violation": viol_path,
+        }));
+    }
+    let doc = json!({"property": id, "config": cfgname, "seed": seed, "tier": if tier == Tier::Quick { "quick" } else { "thorough" }, "checks": parts, "violations": violations});
+    match out {
+        Some(p) => std::fs::write(p, serde_json::to_string_pretty(&doc).unwrap()).expect("write out"),
+        None => println!("{}", serde_json::to_string_pretty(&doc).unwrap()),
+    }
+    if !violations.is_empty() {
+        1
+    } else if aborted {
+        2
+    } else {
+        0
+    }
+}
+
+/// driver replay <file>: re-execute a replay file's request against the real code and its oracle
+fn cmd_replay(args: &[String]) -> i32 {
+    let path = match args.get(2) {
+        Some(p) => p,
+        None => return 2,
+    };
+    let v: Value = match std::fs::read_to_string(path).ok().and_then(|s| serde_json::from_str(&s).ok()) {
+        Some(v) => v,
+        None => {
+            eprintln!("cannot read {}", path);
+            return 2;
+        }
+    };
+    let id = v["property"].as_str().unwrap_or("").to_string();
+    let name = v["check"].as_str().unwrap_or("").to_string();
+    let req = match req::Req::from_json(&v["req"]) {
+        Some(r) => r,
+        None => {
+            eprintln!("replay file has no request");
+            return 2;
+        }
+    };
+    let checks = props::checks(&id, Tier::Quick).unwrap_or_default();
+    for chk in checks.iter() {
+        if chk.name == name {
+            return match runner::replay_one(chk, &req) {
+                Ok(()) => {
+                    println!("replay: property holds on this case");
+                    0
+                }
+                Err(m) => {
+                    println!("VIOLATION property={} replay={}", id, path);
+                    eprintln!("{}", m);
+                    1
+                }
+            };
+        }
+    }
+    eprintln!("check {} not available in this configuration", name);
+    2
+}
 
 fn main() {
     let args: Vec<String> = std::env::args().collect();
     let cmd = args.get(1).map(|s| s.as_str()).unwrap_or("");
-    match cmd {
+    let code = match cmd {
         "selftest" => match selftest::run() {
-            Ok(n) => println!("selftest ok: {} checks", n),
+            Ok(n) => {
+                println!("selftest ok: {} checks", n);
+                0
+            }
             Err(e) => {
                 eprintln!("MODEL SELFTEST FAILED: {}", e);
-                std::process::exit(2);
+                2
             }
         },
+        "run" => cmd_run(&args),
+        "replay" => cmd_replay(&args),
         _ => {
-            eprintln!("usage: driver <selftest|...>");
-            std::process::exit(2);
+            eprintln!("usage: driver <selftest|run|replay> ...");
+            2
         }
-    }
+    };
+    std::process::exit(code);
 }
